@@ -123,6 +123,116 @@ def run(chk):
     batches = [j["lits"] for j in jreqs]
     chk.bump("oracle:v8-decoded-literals", sum(len(b) for b in batches) * 2)
     chk.exhaustive = True
+    table = entity_stream(chk)
+    constant_stream(chk, table, chk.tier != "thorough")
+
+
+# ---------------------------------------------------------------------------------------------------------
+# entity decoding (independent table: Python's html.entities.html5, the WHATWG named character references)
+def entity_stream(chk):
+    import html.entities
+    table = {k[:-1]: v for k, v in html.entities.html5.items() if k.endswith(";")}
+    names = sorted(table)
+    reqs = [core.req("entity", "&" + n + ";") for n in names]
+    outs = core.run_harness(reqs)
+    nb = 0
+    for n, a in zip(names, outs):
+        want = table[n]
+        got = core.unesc(a.split("\t")[1]) if a.startswith("some\t") else None
+        chk.case(("entity", n), nontrivial=len(want) > 1)
+        if got != want:
+            nb += 1
+            if nb <= 5:
+                chk.violation("input", f"named entity &{n}; denotes {[hex(ord(c)) for c in want]} but decodes to "
+                              f"{None if got is None else [hex(ord(c)) for c in got]}", entity=n, expected=want, got=got)
+    chk.bump("oracle:named-entities", len(names))
+    chk.bump("oracle:named-entities-multi-codepoint", sum(1 for n in names if len(table[n]) > 1))
+    return table
+
+
+# constants end to end: source text -> compiler -> generated JavaScript -> real runtime -> delivered string
+def constant_stream(chk, table, quick):
+    rng = chk.rng.fork("c12-const")
+    cps = [1, 8, 9, 10, 13, 0x1f, 0x20, 0x22, 0x27, 0x5c, 0x60, 0x7f, 0x80, 0x85, 0xa0, 0xad, 0x300, 0x2028, 0x2029, 0xfeff, 0xd7ff, 0xe000,
+           0xfffd, 0xffff, 0x10000, 0x1f600, 0x10ffff, 0x24, 0x7b, 0x7d, 0x3c, 0x3e, 0x26, 0x3d, 0x2f, 0x30, 0x37, 0x41]
+    multi = [n for n in sorted(table) if len(table[n]) > 1]
+    single = [n for n in sorted(table) if len(table[n]) == 1]
+
+    def piece():
+        """(source spelling inside a double-quoted attribute / text, denoted string)"""
+        c = rng.below(10)
+        if c < 4:
+            cp = rng.choice(cps)
+            form = rng.below(3)
+            if cp in (0x22, 0x3c, 0x26, 0x7b, 0x7d, 0x27) or cp < 0x20 or form == 0:
+                return ("&#x%X;" % cp if rng.chance(1, 2) else "&#%d;" % cp), chr(cp)
+            return chr(cp), chr(cp)
+        if c == 4:
+            n = rng.choice(multi)
+            return "&" + n + ";", table[n]
+        if c == 5:
+            n = rng.choice(single)
+            return "&" + n + ";", table[n]
+        if c == 6:
+            return rng.choice(["0", "7", "1", "a", "f", "x", "u", "n"]), None
+        return rng.choice(["a", "-", "é", "中", " b", "_"]), None
+
+    def text():
+        src, den = [], []
+        for _ in range(1 + rng.below(4)):
+            s_, d = piece()
+            src.append(s_)
+            den.append(s_ if d is None else d)
+        return "".join(src), "".join(den)
+
+    carriers = [
+        ("text", lambda s: "<v>x%s</v>" % s, lambda n, d: (n.get("children") or [{}])[0].get("text"), lambda d: "x" + d),
+        ("attribute", lambda s: '<v title="%s"/>' % s, lambda n, d: (n.get("attrs") or {}).get("title"), lambda d: d),
+        ("class", lambda s: '<v class="%s"/>' % s, lambda n, d: ([c[1] for c in n.get("log", []) if c[0] == "c"] or [None])[0], lambda d: d),   # the raw argument of R.c (the stub splits class lists)
+        ("id", lambda s: '<v id="%s"/>' % s, lambda n, d: n.get("id"), lambda d: d),
+        ("dataset", lambda s: '<v data-k="%s"/>' % s, lambda n, d: (n.get("dataset") or {}).get("k"), lambda d: d),
+        ("mark", lambda s: '<v mark:m="%s"/>' % s, lambda n, d: (n.get("marks") or {}).get("m"), lambda d: d),
+        ("mixed", lambda s: '<v title="%s{{b}}"/>' % s, lambda n, d: (n.get("attrs") or {}).get("title"), lambda d: d + "B"),
+        ("slot-name", lambda s: '<slot name="%s"/>' % s, lambda n, d: n.get("slot"), lambda d: d),
+        ("event-handler", lambda s: '<v bind:tap="%s"/>' % s, lambda n, d: ([e[1] for e in n.get("events", []) if e[0] == "tap"] or [None])[0], lambda d: d),
+    ]
+    cases = []
+    for i in range(400 if quick else 8000):
+        src, den = text()
+        name, mk, _, _ = carriers[i % len(carriers)]
+        cases.append((i % len(carriers), src, den))
+    from . import render
+    groups = render.compile_templates([[["p", carriers[ci][1](src)]] for ci, src, den in cases])
+    reqs, meta = [], []
+    for k, ((ci, src, den), g) in enumerate(zip(cases, groups)):
+        if "panic" in g or not isinstance(g.get("gen_groups"), str):
+            chk.violation("input", "compiler failed on a constant-carrying template", template=carriers[ci][1](src))
+            continue
+        reqs.append({"op": "render", "gen_groups": g["gen_groups"], "path": "p", "steps": [{"create": {"b": "B"}}]})
+        meta.append(k)
+    outs = core.run_node(reqs)
+    nb = 0
+    for k, o in zip(meta, outs):
+        ci, src, den = cases[k]
+        name, mk, get, exp = carriers[ci]
+        if "error" in o or not o.get("snapshots"):
+            nb += 1
+            if nb <= 5:
+                chk.violation("input", f"rendering a template with a constant in {name} position threw: {o.get('error')}", template=mk(src))
+            continue
+        tree = o["snapshots"][0]["tree"]
+        got = get(tree[0], den) if tree else None
+        want = exp(den)
+        if name == "event-handler" and want.strip() == "":
+            continue
+        chk.case(("const", name, src), nontrivial=src != den)
+        if got != want:
+            nb += 1
+            if nb <= 5:
+                chk.violation("input", f"constant in {name} position: the source denotes {[hex(ord(c)) for c in want]} but the runtime received "
+                              f"{None if got is None else [hex(ord(c)) for c in got] if isinstance(got, str) else got}",
+                              template=mk(src), position=name, expected=want, got=got)
+    chk.bump("oracle:constants-end-to-end", len(meta))
 
 
 def replay(chk, path):
